@@ -16,6 +16,7 @@ import Frugal.Reference
 import Frugal.Proofs.NormFacts
 import Frugal.Proofs.ClearNocopy2
 import Frugal.Proofs.Holders
+import Frugal.Proofs.ReadNormH
 open Frugal Frugal.Proto
 
 structure Ctx where
@@ -23,6 +24,7 @@ structure Ctx where
   R : List (Option SDesc)
   S : Schema
   P : Params
+  boom : List Nat := []   -- structs whose InitDefault panics while the harness says so (`init` = 2)
 
 def splitWs (s : String) : List String :=
   (s.splitOn " ").filter (· ≠ "")
@@ -35,7 +37,7 @@ def parseUniverse (lines : Array String) : Universe := Id.run do
   for ln in lines do
     match splitWs ln with
     | ["struct", _sid, name, init] =>
-      structs := structs.push { name := if name == "-" then "" else name, fields := [], hasInit := init == "1" }
+      structs := structs.push { name := if name == "-" then "" else name, fields := [], hasInit := init != "0" }
     | ["field", sid, gname, exp, emb, gty, tagh, dflt] =>
       let i := sid.toNat!
       match parseGoTy gty.toList with
@@ -50,6 +52,15 @@ def parseUniverse (lines : Array String) : Universe := Id.run do
       | _ => pure ()
     | _ => pure ()
   return structs.toList
+
+/-- the structs marked `struct <sid> <name> 2`: their InitDefault fails on demand (`useboom`) -/
+def parseBoom (lines : Array String) : List Nat := Id.run do
+  let mut out : List Nat := []
+  for ln in lines do
+    match splitWs ln with
+    | ["struct", sid, _, "2"] => out := sid.toNat! :: out
+    | _ => pure ()
+  return out
 
 def errClass : ErrKind → String
   | .required n => "required:" ++ n
@@ -127,9 +138,9 @@ def topHolderOK (S : Schema) (i : Nat) (h : Bytes) : Bool :=
   serFields us == h && wfFields us &&
     us.all fun p => (lookupKnown (S.get i) p.1 p.2.tag).isNone && decide (skipNeed p.2 ≤ 64)
 
-/-- C01 (`Frugal.C01.roundtrip` / `roundtrip_with_top_holder`): the first of its hypotheses this (schema, value, destination)
+/-- C01 (`Frugal.C01.roundtrip` / `roundtrip_with_nested_holders`): the first of its hypotheses this (schema, value, destination)
     does not meet, if any -/
-def rtWhy (S : Schema) (r : List Nat) (i : Nat) (vv dv : Val) : Option String :=
+def rtWhy (P : Params) (S : Schema) (r : List Nat) (i : Nat) (vv dv : Val) : Option String :=
   match vv with
   | .st xs h =>
     match sideOn S r with
@@ -137,12 +148,11 @@ def rtWhy (S : Schema) (r : List Nat) (i : Nat) (vv dv : Val) : Option String :=
     | none =>
     if !hasTy S (.strct i) vv then some "value-not-typed"
     else if !hasTy S (.strct i) dv then some "dest-not-typed"
-    else if !noHolderList xs then some "nested-holder-bytes"
-    else if !(h.isEmpty || topHolderOK S i h) then some "holder-not-unrecognised-fields"
-    else if !sizesFitList xs then some "size"
+    else if !fitH vv then some "size-or-holder-not-a-field-list"
+    else if !unkOK P S (.strct i) vv then some "holder-not-unrecognised-fields"
     else if !enums32 S (.strct i) vv then some "enum-beyond-32-bits"
     else if !rtOK S (.strct i) vv then some "nil-struct-with-required-fields"
-    else if !decide (depth (toWire S (.strct i) vv) ≤ 511) then some "depth"
+    else if !decide (depth (toWireH S (.strct i) vv) ≤ 511) then some "depth"
     else none
   | _ => some "not-a-struct"
 
@@ -201,13 +211,11 @@ def handle (ctx : Ctx) (ln : String) : Option String :=
         let i := sid.toNat!
         let r := reachOf ctx.S i
         let S' := subSchema ctx.S r
-        match rtWhy S' r i vv dv with
+        match rtWhy ctx.P S' r i vv dv with
         | some why => some ("SKIP rt:" ++ why)
         | none =>
-          -- a non-empty top-level holder comes back byte for byte (roundtrip_with_top_holder)
-          let nf := match normTop S' i vv dv, vv with
-            | .st fs h', .st _ h => Val.st fs (if h.isEmpty then h' else h)
-            | w, _ => w
+          -- retained bytes come back byte for byte at every nesting level (roundtrip_with_nested_holders)
+          let nf := normTopH S' i vv dv
           let exp := "ok " ++ toString (appendM ctx.P S' i vv).length ++ " " ++ showVal nf
           -- `nocopy` strings come back as views of the input: their provenance is forgotten here
           -- (C01.roundtrip_with_nocopy); where the bytes live is checked on the `dec` line (C14)
@@ -270,6 +278,12 @@ def handleUse (ctx : Ctx) (cache : CacheSt) (ln : String) : Option (CacheSt × O
       let exp := (if ok then "ok" else "err") ++ " pf=" ++ toString cache'.pf.length
       let got := " ".intercalate (splitWs rhs)
       some (cache', if exp == got then none else some s!"DIFF use sid={sid} model=[{exp}] go=[{got}]")
+    | ["useboom", sid] =>
+      -- the same use while the marked InitDefault methods panic: a failed use of the state machine
+      let (ok, cache') := useType (failing ctx.R ctx.boom) sid.toNat! cache
+      let exp := (if ok then "ok" else "panic:user") ++ " pf=" ++ toString cache'.pf.length
+      let got := " ".intercalate (splitWs rhs)
+      some (cache', if exp == got then none else some s!"DIFF useboom sid={sid} model=[{exp}] go=[{got}]")
     | _ => none
   | _ => none
 
@@ -295,7 +309,7 @@ partial def loop (ctx : Ctx) (h : IO.FS.Stream) (lineNo diffs : Nat) (skips : Li
 def run (ufile : String) (P : Params) (label : String) : IO UInt32 := do
   let lines ← IO.FS.lines ufile
   let U := parseUniverse lines
-  let ctx : Ctx := { U := U, R := resolveAll U, S := schemaOf U, P := P }
+  let ctx : Ctx := { U := U, R := resolveAll U, S := schemaOf U, P := P, boom := parseBoom lines }
   let stdin ← IO.getStdin
   let (n, d, sk) ← loop ctx stdin 0 0 [] {}
   let sks := " ".intercalate (sk.map fun (k, c) => s!"[{k}]={c}")
